@@ -830,3 +830,66 @@ impl<'g, G: AffineRepr, T: BorrowMut<Transcript>> Prover<'g, G, T> {
         Ok((proof, self.transcript))
     }
 }
+
+/// Verification hooks (off by default): let an external monitor read and
+/// overwrite the assignment of one multiplication gate, so that a
+/// gate-violating witness can be pushed through the unmodified proving code.
+#[cfg(feature = "verif-hooks")]
+impl<'g, G: AffineRepr, T: BorrowMut<Transcript>> Prover<'g, G, T> {
+    /// Returns the current `(left, right, output)` assignment of gate `i`.
+    pub fn verif_gate_assignment(
+        &self,
+        i: usize,
+    ) -> Option<(G::ScalarField, G::ScalarField, G::ScalarField)> {
+        if i < self.secrets.a_L.len() {
+            Some((
+                self.secrets.a_L[i],
+                self.secrets.a_R[i],
+                self.secrets.a_O[i],
+            ))
+        } else {
+            None
+        }
+    }
+
+    /// Overwrites the given components of the assignment of gate `i`.
+    pub fn verif_overwrite_gate(
+        &mut self,
+        i: usize,
+        l: Option<G::ScalarField>,
+        r: Option<G::ScalarField>,
+        o: Option<G::ScalarField>,
+    ) {
+        if let Some(l) = l {
+            self.secrets.a_L[i] = l;
+        }
+        if let Some(r) = r {
+            self.secrets.a_R[i] = r;
+        }
+        if let Some(o) = o {
+            self.secrets.a_O[i] = o;
+        }
+    }
+}
+
+#[cfg(feature = "verif-hooks")]
+impl<'g, G: AffineRepr, T: BorrowMut<Transcript>> RandomizingProver<'g, G, T> {
+    /// See [`Prover::verif_gate_assignment`].
+    pub fn verif_gate_assignment(
+        &self,
+        i: usize,
+    ) -> Option<(G::ScalarField, G::ScalarField, G::ScalarField)> {
+        self.prover.verif_gate_assignment(i)
+    }
+
+    /// See [`Prover::verif_overwrite_gate`].
+    pub fn verif_overwrite_gate(
+        &mut self,
+        i: usize,
+        l: Option<G::ScalarField>,
+        r: Option<G::ScalarField>,
+        o: Option<G::ScalarField>,
+    ) {
+        self.prover.verif_overwrite_gate(i, l, r, o)
+    }
+}
